@@ -9,7 +9,9 @@ mod c05;
 mod c07;
 mod c11;
 mod c12;
+mod c13;
 mod c16;
+mod c18;
 mod corpus;
 mod codec;
 mod common;
@@ -41,7 +43,9 @@ fn main() {
             return;
         }
         "C12" => c12::run(&cli, &rep),
+        "C13" => c13::run(&cli, &rep),
         "C16" => c16::run(&cli, &rep),
+        "C18" => c18::run(&cli, &rep),
         other => {
             eprintln!("mc-seq: unknown check {other}");
             std::process::exit(2);
